@@ -90,38 +90,45 @@ package gossip
 
 //@ iface (Watcher).OnJoin
 //@   acquires 30
+//@   requires[serialized] held(clusterState.mu)
 //@   requires[fresh-node] nodeID == gNode() ==> !wNode && !wHas && !wLeft && !wUnreach
 //@   modifies-all $wNode
 //@   ensures[fold] wNode == (old(wNode) || nodeID == gNode())
 //@ iface (Watcher).OnLeave
 //@   acquires 30
+//@   requires[serialized] held(clusterState.mu)
 //@   requires[announced] nodeID == gNode() ==> wNode
 //@   modifies-all $wLeft
 //@   ensures[fold] wLeft == (old(wLeft) || nodeID == gNode())
 //@ iface (Watcher).OnUnreachable
 //@   acquires 30
+//@   requires[serialized] held(clusterState.mu)
 //@   requires[announced] nodeID == gNode() ==> wNode
 //@   requires[not-left] nodeID == gNode() ==> !wLeft
 //@   modifies-all $wUnreach
 //@   ensures[fold] wUnreach == (old(wUnreach) || nodeID == gNode())
 //@ iface (Watcher).OnReachable
 //@   acquires 30
+//@   requires[serialized] held(clusterState.mu)
 //@   requires[announced] nodeID == gNode() ==> wNode
 //@   requires[not-left] nodeID == gNode() ==> !wLeft
 //@   modifies-all $wUnreach
 //@   ensures[fold] wUnreach == (old(wUnreach) && nodeID != gNode())
 //@ iface (Watcher).OnUpsertKey
 //@   acquires 30
+//@   requires[serialized] held(clusterState.mu)
 //@   requires[announced] nodeID == gNode() ==> wNode
 //@   modifies-all $wHas $wVal
 //@   ensures[fold] (nodeID == gNode() && key == gKey()) ? (wHas && wVal == value) : (wHas == old(wHas) && wVal == old(wVal))
 //@ iface (Watcher).OnDeleteKey
 //@   acquires 30
+//@   requires[serialized] held(clusterState.mu)
 //@   requires[announced] nodeID == gNode() ==> wNode
 //@   modifies-all $wHas
 //@   ensures[fold] wHas == (old(wHas) && !(nodeID == gNode() && key == gKey()))
 //@ iface (Watcher).OnExpired
 //@   acquires 30
+//@   requires[serialized] held(clusterState.mu)
 //@   modifies-all $wNode $wHas $wLeft $wUnreach
 //@   ensures[fold] nodeID == gNode() ? (!wNode && !wHas && !wLeft && !wUnreach) : (wNode == old(wNode) && wHas == old(wHas) && wLeft == old(wLeft) && wUnreach == old(wUnreach))
 
